@@ -25,6 +25,10 @@ package main
 //              profile present with foreign content
 //   tag 1: params = (tosend tbs commons dstpre ops cut)   hostile stream: the honest object stream edited by
 //     ops = (0 i) drop | (1 i j) swap | (2 i k) tamper kind k | (3 i) append copy; re-framed cut objects per packfile
+//   tag 2: params = (tosend tbs commons max dstpre cutpack j where)   transit damage: packfile number cutpack of the
+//     honest transfer is truncated: where 9 = at the boundary before its object j (a legitimately shorter packfile),
+//     where 0..3 = strictly inside object j (0 inside the type/length header, 1 right after the header, 2 mid-body,
+//     3 one byte before its end).  After a boundary cut the remaining packfiles follow; after an error the transfer stops.
 // observation = (status recvdone packs final)
 //   status 0 ok / 1 receiver error / 2 sender error; packs = (((kind id) ...) ...) kind 1 commit 2 table 3 block
 //   0 undecodable; final = (commits tables blocks blkidx tblidx prof) sorted abstract ids
@@ -83,6 +87,8 @@ type c07Scn struct {
 	preStale             []int    // table index + profile with foreign content
 	ops                  [][]int
 	cut                  int
+	cutPack, cutObj      int // tag 2
+	cutWhere             int
 }
 
 func c07Ints(t *xt.T) []int {
@@ -109,9 +115,12 @@ func c07Decode(c *xt.T) *c07Scn {
 	s.dropT, s.dropB = c07Ints(w.Kids[3].Kids[0]), c07Ints(w.Kids[3].Kids[1])
 	s.tosend, s.tbs, s.commons = c07Ints(p.Kids[0]), c07Ints(p.Kids[1]), c07Ints(p.Kids[2])
 	var pre *xt.T
-	if s.tag == 0 {
+	if s.tag == 0 || s.tag == 2 {
 		s.max = p.Kids[3].N
 		pre = p.Kids[4]
+		if s.tag == 2 {
+			s.cutPack, s.cutObj, s.cutWhere = int(p.Kids[5].N), int(p.Kids[6].N), int(p.Kids[7].N)
+		}
 	} else {
 		pre = p.Kids[3]
 		for _, o := range p.Kids[4].Kids {
@@ -159,6 +168,10 @@ func c07Encode(s *c07Scn, w *c07World) *xt.T {
 	pre := xt.N(xt.Ints(s.preC), xt.Ints(s.preT), xt.Ints(s.preB), xt.Ints(s.preTO), xt.Ints(s.preTI), xt.Ints(s.preTP), px, xt.Ints(s.preStale))
 	if s.tag == 0 {
 		return xt.N(xt.LI(0), world, xt.N(xt.Ints(s.tosend), xt.Ints(s.tbs), xt.Ints(s.commons), xt.L(s.max), pre))
+	}
+	if s.tag == 2 {
+		return xt.N(xt.LI(2), world, xt.N(xt.Ints(s.tosend), xt.Ints(s.tbs), xt.Ints(s.commons), xt.L(s.max), pre,
+			xt.LI(s.cutPack), xt.LI(s.cutObj), xt.LI(s.cutWhere)))
 	}
 	ops := xt.N()
 	for _, o := range s.ops {
@@ -711,6 +724,9 @@ func runC07(ctx *Ctx, c *xt.T) (*xt.T, Verdict) {
 	if s.tag == 0 {
 		return c07RunHonest(s, w)
 	}
+	if s.tag == 2 {
+		return c07RunTruncated(s, w)
+	}
 	return c07RunHostile(s, w)
 }
 
@@ -1024,6 +1040,151 @@ func c07RunHonest(s *c07Scn, w *c07World) (*xt.T, Verdict) {
 				bad("frame-lost", "key %q disappeared", k)
 			}
 		}
+	}
+	return obs, v
+}
+
+// ---------------------------------------------------------------------------
+// transit damage: one packfile of the honest transfer arrives truncated
+
+func c07RunTruncated(s *c07Scn, w *c07World) (*xt.T, Verdict) {
+	dst := w.buildDst()
+	closedBefore, _ := c07Closed(dst)
+	usableBefore := c07UsableSet(dst)
+	savedTables := map[string]bool{}
+	hook := apiutils.WithReceiverSaveObjectHook(func(objType int, sum []byte) {
+		if objType == packfile.ObjectTable {
+			savedTables[string(sum)] = true
+		}
+	})
+	coms, tbs, commons, expected := w.senderArgs()
+	v := OK()
+	bad := func(class, format string, a ...interface{}) {
+		if v.OK {
+			v = Fail(class, format, a...)
+		}
+	}
+	status := 0
+	recvDone := false
+	packs := xt.N()
+	sender, err := apiutils.NewObjectSender(w.src, coms, tbs, commons, s.max)
+	if err != nil {
+		return xt.N(xt.LI(2), xt.Bool(false), packs, w.final(dst, nil)), v
+	}
+	receiver := apiutils.NewObjectReceiver(dst, expected, logr.Discard(), hook)
+	prefixes := map[string]string{"commit": "com/", "table": "tbl/", "block": "blk/"}
+	buf := bytes.NewBuffer(nil)
+	for iter := 0; iter < 100000; iter++ {
+		buf.Reset()
+		done, info, err := sender.WriteObjects(buf, nil)
+		if err != nil {
+			status = 2
+			break
+		}
+		data := append([]byte{}, buf.Bytes()...)
+		objs := info.Objects
+		inside := false
+		var cutKey []byte
+		if iter == s.cutPack {
+			// byte extents of the objects of this packfile
+			pr, err := packfile.NewPackfileReader(io.NopCloser(bytes.NewReader(data)))
+			if err != nil {
+				panic(err)
+			}
+			type ext struct{ start, hdr, body int }
+			exts := []ext{}
+			off := 8
+			for {
+				ot, b, err := pr.ReadObject()
+				if err == io.EOF {
+					break
+				}
+				if err != nil {
+					panic(err)
+				}
+				n := c07ObjSize(ot, b)
+				exts = append(exts, ext{off, n - len(b), len(b)})
+				off += n
+			}
+			if len(exts) != len(objs) || off != len(data) {
+				panic("c07: packfile extents do not add up")
+			}
+			j := s.cutObj
+			if s.cutWhere == 9 {
+				if j < len(exts) {
+					data = data[:exts[j].start]
+					objs = objs[:j]
+				}
+			} else if j < len(exts) {
+				e := exts[j]
+				pos := e.start + 1
+				switch s.cutWhere {
+				case 1:
+					pos = e.start + e.hdr
+				case 2:
+					pos = e.start + e.hdr + e.body/2
+				case 3:
+					pos = e.start + e.hdr + e.body - 1
+				}
+				sum, _ := hex.DecodeString(objs[j][1])
+				cutKey = c07Key(prefixes[objs[j][0]], sum)
+				if dst.Exist(cutKey) {
+					cutKey = nil // already there: nothing to conclude from its presence
+				}
+				data = data[:pos]
+				objs = objs[:j]
+				inside = true
+			}
+		}
+		pk := xt.N()
+		for _, o := range objs {
+			pk.Add(w.absObj(o[0], o[1], nil))
+		}
+		if inside {
+			pk.Add(xt.N(xt.LI(0), xt.LI(0)))
+		}
+		packs.Add(pk)
+		pr, err := packfile.NewPackfileReader(io.NopCloser(bytes.NewReader(data)))
+		if err != nil {
+			panic(err)
+		}
+		rdone, err := receiver.Receive(pr, nil)
+		if inside {
+			if err == nil {
+				bad("truncated-object-accepted", "packfile %d cut strictly inside its object %d (position kind %d): Receive returned no error (done=%v)", iter, s.cutObj, s.cutWhere, rdone)
+			}
+			if cutKey != nil && dst.Exist(cutKey) {
+				bad("truncated-object-stored", "packfile %d cut inside object %d, yet %q is stored", iter, s.cutObj, cutKey)
+			}
+		}
+		if err != nil {
+			status = 1
+			break
+		}
+		recvDone = rdone
+		if done {
+			break
+		}
+	}
+	obs := xt.N(xt.LI(status), xt.Bool(status == 0 && recvDone), packs, w.final(dst, nil))
+	// a transfer that ends with the receiver done has every commit it expected, byte-identical
+	if status == 0 && recvDone {
+		for _, cm := range coms {
+			if ok, msg := c07RawEq(w.src, dst, c07Key("com/", cm.Sum)); !ok {
+				bad("done-but-missing", "receiver reports done: %s", msg)
+			}
+		}
+	}
+	if closedBefore {
+		if ok, msg := c07Closed(dst); !ok {
+			bad("parent-missing", "%s", msg)
+		}
+	}
+	for k := range savedTables {
+		usableBefore[k] = true
+	}
+	if ok, msg := c07TablesUsable(dst, usableBefore); !ok {
+		bad("table-unusable", "%s", msg)
 	}
 	return obs, v
 }
@@ -1708,6 +1869,40 @@ func genC07(ctx *Ctx) []Case {
 			g.add("fixed-zone", true, &c07Scn{tbls: []c07Tbl{P[0], P[1]}, coms: coms, tosend: c07Seq0(len(coms)), tbs: []int{0, 1}, max: mx})
 		}
 	}
+	// transit damage: every packfile of the probe at limits 1 and 2500 (several objects per packfile), cut before /
+	// inside every object at every kind of position
+	for _, mx := range []uint64{1, 2500, 1 << 40} {
+		probe := &c07Scn{tbls: []c07Tbl{P[2], P[3]}, coms: []c07Com{{0, nil, 0}, {1, []int{0}, -210}}, tosend: []int{0, 1}, tbs: []int{0, 1}, max: mx}
+		cums := c07CumSizes(probe)
+		// objects per packfile at this limit
+		per := []int{}
+		var acc, last uint64
+		n := 0
+		for _, c := range cums {
+			n++
+			acc += c - last
+			last = c
+			if acc >= mx {
+				per = append(per, n)
+				n, acc = 0, 0
+			}
+		}
+		if n > 0 {
+			per = append(per, n)
+		}
+		for pi, cnt := range per {
+			for j := 0; j < cnt; j++ {
+				for _, where := range []int{9, 0, 1, 2, 3} {
+					if !ctx.Thorough() && mx == 1 && where != 2 && where != 9 {
+						continue
+					}
+					c := *probe
+					c.tag, c.cutPack, c.cutObj, c.cutWhere = 2, pi, j, where
+					g.add("fixed-truncated", true, &c)
+				}
+			}
+		}
+	}
 	// nothing to send
 	g.add("fixed", false, &c07Scn{tbls: []c07Tbl{P[0]}, coms: []c07Com{{0, nil, 0}}, max: 17})
 	// hostile witnesses: rejected table must leave no table/index behind (fix 2b449a8), malformed tables (fix 427cc6f)
@@ -1949,6 +2144,14 @@ func genC07(ctx *Ctx) []Case {
 				}
 			}
 			g.add("rand-hostile", true, &h)
+		}
+		if tag == "rand" && ctx.Pick(3) == 0 && len(s.tosend) > 0 { // the same transfer with one packfile truncated in transit
+			tr := *s
+			tr.tag = 2
+			tr.cutPack = ctx.Pick(4)
+			tr.cutObj = ctx.Pick(4)
+			tr.cutWhere = []int{9, 0, 1, 2, 3, 2, 3}[ctx.Pick(7)]
+			g.add("rand-truncated", true, &tr)
 		}
 		g.add(tag, len(s.tosend) >= 1, s)
 	}
